@@ -123,12 +123,13 @@ Section CF.
     unfold print_clause, print_clause_gen, clause_expr, print_catom. cbn [cl_head cl_prem cl_trans ca_sym ca_args].
     unfold parse_clause.
     destruct prem as [ps|].
-    - apply andb_true_iff in O. destruct O as [O Oe]. apply andb_true_iff in O. destruct O as [O Ot].
+    - apply andb_true_iff in O. destruct O as [O Ot].
       apply andb_true_iff in O. destruct O as [Ne Op]. apply negb_true_iff in Ne.
       assert (NE : ps <> []) by (intro; subst ps; discriminate Ne).
+      pose proof (last_end_ok_all ps) as Oe.
       destruct trans as [|st t].
       + (* no transform *)
-        cbn [negb is_nil orb andb] in Oe. cbn [andb].
+        cbn [andb].
         fold (body_end ps). rewrite <- !app_assoc.
         rewrite (PCALL hs ha f _ Ps Oa) by lia. cbn [as_atom]. rewrite Nf.
         rewrite tok_if, plits_blank.
@@ -189,7 +190,7 @@ Section CF.
     unfold clause_denotes, clause_expr. cbn [cl_head cl_prem cl_trans ca_sym ca_args pc_sym pc_args pc_prem pc_trans].
     split; [reflexivity|]. split; [apply (bexps_denote_expr parse_time parse_dur fmt_time fmt_dur time_rt dur_rt); exact Oa|].
     destruct prem as [ps|]; cbn [option_map].
-    - apply andb_true_iff in O. destruct O as [O _]. apply andb_true_iff in O. destruct O as [O Ot].
+    - apply andb_true_iff in O. destruct O as [O Ot].
       apply andb_true_iff in O. destruct O as [_ Op]. split.
       + clear Ot. induction ps as [|p ps IH]; [constructor|]. cbn [forallb] in Op. apply andb_true_iff in Op.
         destruct Op as [O1 O2]. cbn [map]. constructor; [apply premise_denotes_expr; exact O1|apply IH; exact O2].
@@ -264,7 +265,7 @@ Section CF.
     pose proof (NCALL hs ha Oa) as H.
     unfold need_clause, fuel_for, print_clause, print_clause_gen, print_catom. cbn [cl_head cl_prem cl_trans ca_sym ca_args].
     destruct prem as [ps|].
-    - apply andb_true_iff in O. destruct O as [O _]. apply andb_true_iff in O. destruct O as [O Ot].
+    - apply andb_true_iff in O. destruct O as [O Ot].
       apply andb_true_iff in O. destruct O as [_ Op].
       pose proof (need_lits_le ps Op) as L. pose proof (need_stages_le trans Ot) as T.
       fold (pbody ps).
